@@ -1,6 +1,7 @@
 import LLRP.Proofs.ClientLive
 import LLRP.Model.Initial
 import LLRP.Gen.Gate
+import LLRP.Proofs.SeqInitial
 /-!
 # C08 — nothing is sent before a successful connection event; requests wait for setup
 
@@ -74,6 +75,21 @@ theorem accept_iff (m : Option First) : checkInitial m = true ↔ ∃ f, m = som
           constructor
           · intro h; exact ⟨h3', by omega, by omega, (payloadOk_iff _).mp h⟩
           · rintro ⟨_, _, _, h'⟩; exact (payloadOk_iff _).mpr h'
+
+/-- **The source is the model.** `Gen.llrp_Client_checkInitialMessage` is `Client.checkInitialMessage` as go2seq translates it from
+reader.go on this run (every test, branch and outcome is the source's; `SeqGlue.initEnv` gives the meaning of the calls it
+makes: the connection delivers `m`, the payload decoder is the codec model over the regenerated table, the acknowledger
+is the only registered handler). It returns nil exactly when `checkInitial` accepts, and hands the first message to the
+acknowledger exactly when `ackOnFirst` says so — so `accept_iff` is a statement about the translated source. -/
+theorem src_checkInitialMessage (m : Option First) :
+    ((Gen.llrp_Client_checkInitialMessage SeqGlue.initEnv ⟨m, false⟩).2 == GoSeq.GoErr.nil) = checkInitial m ∧
+    (Gen.llrp_Client_checkInitialMessage SeqGlue.initEnv ⟨m, false⟩).1.acked = ackOnFirst m :=
+  SeqGlue.src_checkInitial m
+
+/-- the translated source accepts exactly the first messages that satisfy `Accepts` -/
+theorem src_accept_iff (m : Option First) :
+    (Gen.llrp_Client_checkInitialMessage SeqGlue.initEnv ⟨m, false⟩).2 = GoSeq.GoErr.nil ↔ ∃ f, m = some f ∧ Accepts f := by
+  rw [← accept_iff, ← (src_checkInitialMessage m).1]; simp
 
 /-- the LTS's acceptance test on an abstract frame is `checkInitial` on a first message that arrived in full -/
 theorem initial_refines (f : First) (id : Nat) (hc : f.declared ≤ f.payload.length) :
